@@ -42,6 +42,7 @@ type contextStackEntry struct {
 	CurrentObjectCount  int
 	ExpectedObjectCount int // -1 means ignored
 	Keys                map[interface{}]bool
+	MarkerID            string // Only set in the entry a marker creates
 }
 
 type Context struct {
@@ -320,11 +321,13 @@ func (_this *Context) BeginNode() {
 func (_this *Context) BeginMarkerKeyable(id []byte, dataType DataType) {
 	_this.markerID = string(id)
 	_this.stackRule(&markedObjectKeyableRule, dataType, noObjectCount)
+	_this.CurrentEntry.MarkerID = _this.markerID
 }
 
 func (_this *Context) BeginMarkerAnyType(id []byte, dataType DataType) {
 	_this.markerID = string(id)
 	_this.stackRule(&markedObjectAnyTypeRule, dataType, noObjectCount)
+	_this.CurrentEntry.MarkerID = _this.markerID
 }
 
 func (_this *Context) LocalReferenceKeyable(identifier []byte) {
@@ -348,6 +351,14 @@ func (_this *Context) EndDocument() {
 		panic(fmt.Errorf("%v]", str))
 	}
 	_this.ChangeRule(&terminalRule)
+}
+
+// Mark a container or chunked array that has just ended. The current entry is
+// the one its marker created; markers inside the container may have been
+// processed since, so the marker ID is taken from that entry.
+func (_this *Context) MarkContainer(dataType DataType) {
+	_this.markerID = _this.CurrentEntry.MarkerID
+	_this.MarkObject(dataType)
 }
 
 func (_this *Context) MarkObject(dataType DataType) {
